@@ -382,6 +382,19 @@ def execute(mat, ctx):
                 except (RuntimeError, NotImplementedError):
                     pass
                 ctx.nontrivial(["charuser", j, s])
+            # a concrete type of the family is itself refined by a user (another signature): the refinement is a candidate of
+            # its parent, not of the family base
+            gsig = (gen.rand_dna(gen.rng_for("c05-grand", j, 0), k), gen.rand_dna(gen.rng_for("c05-grand", j, 1), k))
+            grand = type(str("UGrand%d" % j), (subs[0],), {"signature": gsig})
+            rg = gen.rng_for("c05-grand-text", j)
+            for t in range(2):
+                ctx.count("evaluations")
+                ctx.count("c05_grandchild_characterizations")
+                s = gen.instance(rg, grand.structure(), run_max=15) + gen.rand_dna(rg, rg.randint(2, 15))
+                try:
+                    base.characterize(_record(rot_left(s, rg.randrange(10))))     # judged by the monitor
+                except (RuntimeError, NotImplementedError):
+                    pass
             # a new type declared *after* the family base has been used: it is a candidate from then on
             late_sig = (gen.rand_dna(rng, k), gen.rand_dna(rng, k))
             late = type(str("ULate%d" % j), (base, role) if not concrete_base else (base,), {"signature": late_sig})
